@@ -60,7 +60,7 @@ func purl(u string) string {
 	return emit.Some(emit.Ctor("Build_purl", emit.Str(pre), emit.List(le), emit.List(gt), frag))
 }
 
-func tables(clients []*refstore.Client, uri string, parse []string) string {
+func tables(clients []*refstore.Client, uris []string, parse []string) string {
 	var pm []string
 	seen := map[string]bool{}
 	for _, c := range clients {
@@ -68,18 +68,20 @@ func tables(clients []*refstore.Client, uri string, parse []string) string {
 			continue
 		}
 		for _, g := range c.PostLogoutGlobs {
-			if seen[g] {
-				continue
+			for _, uri := range uris {
+				if seen[g+"\x00"+uri] {
+					continue
+				}
+				seen[g+"\x00"+uri] = true
+				m, err := path.Match(g, uri)
+				r := "PNoMatch"
+				if err != nil {
+					r = "PBad"
+				} else if m {
+					r = "PMatch"
+				}
+				pm = append(pm, "("+emit.Str(g)+", "+emit.Str(uri)+", "+r+")")
 			}
-			seen[g] = true
-			m, err := path.Match(g, uri)
-			r := "PNoMatch"
-			if err != nil {
-				r = "PBad"
-			} else if m {
-				r = "PMatch"
-			}
-			pm = append(pm, "("+emit.Str(g)+", "+emit.Str(uri)+", "+r+")")
 		}
 	}
 	var up []string
@@ -183,18 +185,26 @@ func genState(r drv.Rand) (string, string) {
 type hintSpec struct {
 	kind     string // none valid expired future badsig foreign garbage tampered expbadsig
 	sub, azp string
+	iss      string // issuer the token is signed for ("" = the issuer of the request it is sent with)
 }
 
-func (h hintSpec) term() string {
+// term: what the driver knows about the token (C18_Session.tok)
+func (h hintSpec) term(current string) string {
+	iss := h.iss
+	if iss == "" {
+		iss = current
+	}
 	switch h.kind {
 	case "none":
-		return "HNone"
+		return "TNone"
 	case "valid":
-		return emit.Ctor("HGood", "false", emit.Str(h.sub), emit.Str(h.azp))
+		return emit.Ctor("TSigned", emit.Str(iss), "false", emit.Str(h.sub), emit.Str(h.azp))
 	case "expired", "future":
-		return emit.Ctor("HGood", "true", emit.Str(h.sub), emit.Str(h.azp))
+		return emit.Ctor("TSigned", emit.Str(iss), "true", emit.Str(h.sub), emit.Str(h.azp))
+	case "foreign":
+		return emit.Ctor("TSigned", emit.Str("https://evil.example"), "false", emit.Str(h.sub), emit.Str(h.azp))
 	default:
-		return "HBad"
+		return "TBad"
 	}
 }
 
@@ -215,7 +225,11 @@ func sign(key any, kid string, claims map[string]any) string {
 	return s
 }
 
-func (h hintSpec) token(sk *refstore.SigningKey) string {
+func (h hintSpec) token(sk *refstore.SigningKey, current string) string {
+	iss := h.iss
+	if iss == "" {
+		iss = current
+	}
 	if h.kind == "none" {
 		return ""
 	}
@@ -223,7 +237,7 @@ func (h hintSpec) token(sk *refstore.SigningKey) string {
 		return "aaa.bbb.ccc"
 	}
 	now := time.Now()
-	claims := map[string]any{"iss": opfix.Issuer, "sub": h.sub, "aud": []string{"somebody"},
+	claims := map[string]any{"iss": iss, "sub": h.sub, "aud": []string{"somebody"},
 		"iat": now.Add(-2 * time.Hour).Unix(), "exp": now.Add(2 * time.Hour).Unix(), "auth_time": now.Add(-2 * time.Hour).Unix()}
 	if h.azp != "" {
 		claims["azp"] = h.azp
@@ -243,7 +257,7 @@ func (h hintSpec) token(sk *refstore.SigningKey) string {
 	tok := sign(key, kid, claims)
 	if h.kind == "tampered" {
 		parts := strings.Split(tok, ".")
-		other := strings.Split(sign(key, kid, map[string]any{"iss": opfix.Issuer, "sub": "mallory", "azp": h.azp, "aud": []string{"x"},
+		other := strings.Split(sign(key, kid, map[string]any{"iss": iss, "sub": "mallory", "azp": h.azp, "aud": []string{"x"},
 			"iat": now.Unix(), "exp": now.Add(time.Hour).Unix()}), ".")
 		tok = parts[0] + "." + other[1] + "." + parts[2]
 	}
@@ -252,16 +266,23 @@ func (h hintSpec) token(sk *refstore.SigningKey) string {
 
 // ---------------------------------------------------------------- one case
 
+// one provider instance and the requests sent to it in sequence
 type esCase struct {
-	router   opfix.Router
-	defaultU string
-	clients  []*refstore.Client
-	hint     hintSpec
-	clientID string
-	uri      string
-	state    string
-	fault    int // 0 none, 1 GetClientByClientID, 2 TerminateSession
-	tags     []string
+	issuerMode int // 0 static issuer, 1 op.IssuerFromHost, 2 op.IssuerFromForwardedOrHost
+	defaultU   string
+	clients    []*refstore.Client
+	reqs       []esReq
+	tags       []string
+}
+
+type esReq struct {
+	router    opfix.Router
+	host, fwd string // Request.Host and `Forwarded: host=` ("" = none)
+	hint      hintSpec
+	clientID  string
+	uri       string
+	state     string
+	fault     int // 0 none, 1 GetClientByClientID, 2 TerminateSession
 }
 
 func routerName(r opfix.Router) string {
@@ -271,12 +292,37 @@ func routerName(r opfix.Router) string {
 	return "Provider"
 }
 
+// the issuer the provider must derive for this request
+func (c esCase) issuer(q esReq) string {
+	switch c.issuerMode {
+	case 1:
+		return "https://" + q.host
+	case 2:
+		if q.fwd != "" {
+			return "https://" + q.fwd
+		}
+		return "https://" + q.host
+	}
+	return opfix.Issuer
+}
+
+func verifiable(kind string) bool { return kind == "valid" || kind == "expired" || kind == "future" }
+
 func run(w *emit.Writer, c esCase) {
 	store := refstore.New(opfix.DefaultSigning())
 	for _, cl := range c.clients {
 		store.Clients[cl.ID] = cl
 	}
-	f, err := opfix.New(store, opfix.Options{DefaultLogout: c.defaultU})
+	var f *opfix.Fixture
+	var err error
+	switch c.issuerMode {
+	case 1:
+		f, err = opfix.NewWithIssuer(store, opfix.Options{DefaultLogout: c.defaultU}, op.IssuerFromHost(""))
+	case 2:
+		f, err = opfix.NewWithIssuer(store, opfix.Options{DefaultLogout: c.defaultU}, op.IssuerFromForwardedOrHost(""))
+	default:
+		f, err = opfix.New(store, opfix.Options{DefaultLogout: c.defaultU})
+	}
 	if err != nil {
 		fmt.Fprintln(os.Stderr, "fixture:", err)
 		os.Exit(2)
@@ -285,79 +331,80 @@ func run(w *emit.Writer, c esCase) {
 	if defaultU == "" {
 		defaultU = "/logged-out"
 	}
-	q := url.Values{}
-	if tok := c.hint.token(store.Signing); tok != "" {
-		q.Set("id_token_hint", tok)
-	}
-	if c.clientID != "" {
-		q.Set("client_id", c.clientID)
-	}
-	if c.uri != "" {
-		q.Set("post_logout_redirect_uri", c.uri)
-	}
-	if c.state != "" {
-		q.Set("state", c.state)
-	}
-	store.ResetJournal()
-	store.FaultMethod = ""
-	if c.fault == 1 {
-		store.FaultMethod = "GetClientByClientID"
-	}
-	if c.fault == 2 { // the journal name carries the arguments: fail by position instead
-		store.FaultMethod = "TerminateSession:" + c.expectUser() + ":" + c.expectClient()
-	}
-	resp := f.Get(c.router, "/end_session", q)
-	store.FaultMethod = ""
-	term := emit.None
-	var termPair string
-	for _, j := range store.JournalCopy() {
-		if strings.HasPrefix(j, "TerminateSession:") {
-			rest := j[len("TerminateSession:"):]
-			i := strings.LastIndex(rest, ":")
-			termPair = emit.Pair(emit.Str(rest[:i]), emit.Str(rest[i+1:]))
-			term = emit.Some(termPair)
+	parse := []string{defaultU}
+	var reqTerms, outs []string
+	var human []map[string]any
+	var uris []string
+	for _, rq := range c.reqs {
+		cur := c.issuer(rq)
+		q := url.Values{}
+		if tok := rq.hint.token(store.Signing, cur); tok != "" {
+			q.Set("id_token_hint", tok)
 		}
-	}
-	var obs string
-	switch {
-	case resp.Panic != "":
-		obs = "EPanic"
-	case resp.Status == http.StatusFound && termPair != "":
-		obs = emit.Ctor("ERedirect", emit.Str(resp.Header.Get("Location")), termPair)
-	case resp.Status >= 400:
-		obs = emit.Ctor("EPage", fmt.Sprintf("%d%%N", resp.Status), emit.Str(resp.OAuthError()), term)
-	default:
-		obs = "EOther"
+		if rq.clientID != "" {
+			q.Set("client_id", rq.clientID)
+		}
+		if rq.uri != "" {
+			q.Set("post_logout_redirect_uri", rq.uri)
+		}
+		if rq.state != "" {
+			q.Set("state", rq.state)
+		}
+		store.ResetJournal()
+		store.FaultMethod = ""
+		if rq.fault == 1 {
+			store.FaultMethod = "GetClientByClientID"
+		}
+		if rq.fault == 2 { // the journal name carries the arguments: aim at the call a correct provider makes
+			eu, ec := "", ""
+			accepted := verifiable(rq.hint.kind) && (rq.hint.iss == "" || rq.hint.iss == cur)
+			if accepted {
+				eu, ec = rq.hint.sub, rq.hint.azp
+			} else if rq.hint.kind == "none" {
+				ec = rq.clientID
+			}
+			store.FaultMethod = "TerminateSession:" + eu + ":" + ec
+		}
+		resp := f.GetAt(rq.router, rq.host, rq.fwd, "/end_session", q)
+		store.FaultMethod = ""
+		term := emit.None
+		var termPair string
+		for _, j := range store.JournalCopy() {
+			if strings.HasPrefix(j, "TerminateSession:") {
+				rest := j[len("TerminateSession:"):]
+				i := strings.LastIndex(rest, ":")
+				termPair = emit.Pair(emit.Str(rest[:i]), emit.Str(rest[i+1:]))
+				term = emit.Some(termPair)
+			}
+		}
+		var obs string
+		switch {
+		case resp.Panic != "":
+			obs = "EPanic"
+		case resp.Status == http.StatusFound && termPair != "":
+			obs = emit.Ctor("ERedirect", emit.Str(resp.Header.Get("Location")), termPair)
+		case resp.Status >= 400:
+			obs = emit.Ctor("EPage", fmt.Sprintf("%d%%N", resp.Status), emit.Str(resp.OAuthError()), term)
+		default:
+			obs = "EOther"
+		}
+		outs = append(outs, obs)
+		reqTerms = append(reqTerms, emit.Ctor("Build_ereq", routerName(rq.router), emit.Str(cur), rq.hint.term(cur), emit.Str(rq.clientID),
+			emit.Str(rq.uri), emit.Str(rq.state), []string{"EF_None", "EF_GetClient", "EF_Terminate"}[rq.fault]))
+		parse = append(parse, rq.uri)
+		uris = append(uris, rq.uri)
+		human = append(human, map[string]any{"router": rq.router.String(), "host": rq.host, "forwarded": rq.fwd, "issuer": cur,
+			"hint_kind": rq.hint.kind, "hint_sub": rq.hint.sub, "hint_azp": rq.hint.azp, "hint_iss": rq.hint.iss, "client_id": rq.clientID,
+			"post_logout_redirect_uri": rq.uri, "state": rq.state, "fault": rq.fault, "status": resp.Status, "location": resp.Header.Get("Location"),
+			"body": resp.Body, "journal": store.JournalCopy()})
 	}
 	cl := make([]string, len(c.clients))
 	for i, x := range c.clients {
 		cl[i] = clientTerm(x)
 	}
-	req := emit.Ctor("Build_esreq", c.hint.term(), emit.Str(c.clientID), emit.Str(c.uri), emit.Str(c.state),
-		[]string{"EF_None", "EF_GetClient", "EF_Terminate"}[c.fault])
-	in := emit.Ctor("IEnd", routerName(c.router), emit.Str(defaultU), emit.List(cl), tables(c.clients, c.uri, []string{defaultU, c.uri}), req)
-	w.Add(emit.Case{Input: in, Observed: emit.Ctor("OEnd", obs), Tags: c.tags,
-		Human: map[string]any{"router": c.router.String(), "default": defaultU, "hint_kind": c.hint.kind, "hint_sub": c.hint.sub, "hint_azp": c.hint.azp, "client_id": c.clientID,
-			"post_logout_redirect_uri": c.uri, "state": c.state, "fault": c.fault, "status": resp.Status, "location": resp.Header.Get("Location"),
-			"body": resp.Body, "journal": store.JournalCopy(), "clients": clientsHuman(c.clients)}})
-}
-
-// the TerminateSession call a correct provider would make (used only to aim the fault)
-func (c esCase) expectUser() string {
-	if c.hint.kind == "valid" || c.hint.kind == "expired" || c.hint.kind == "future" {
-		return c.hint.sub
-	}
-	return ""
-}
-
-func (c esCase) expectClient() string {
-	if c.hint.kind == "valid" || c.hint.kind == "expired" || c.hint.kind == "future" {
-		return c.hint.azp
-	}
-	if c.hint.kind == "none" {
-		return c.clientID
-	}
-	return ""
+	in := emit.Ctor("IEnd", emit.Str(defaultU), emit.List(cl), tables(c.clients, uris, parse), emit.List(reqTerms))
+	w.Add(emit.Case{Input: in, Observed: emit.Ctor("OEnd", emit.List(outs)), Tags: c.tags,
+		Human: map[string]any{"issuer_mode": c.issuerMode, "default": defaultU, "requests": human, "clients": clientsHuman(c.clients)}})
 }
 
 func clientsHuman(cs []*refstore.Client) []map[string]any {
@@ -368,65 +415,96 @@ func clientsHuman(cs []*refstore.Client) []map[string]any {
 	return out
 }
 
-func gen(r drv.Rand, w *emit.Writer) {
-	c := esCase{router: opfix.Provider}
+var hosts = []string{"a.example.com", "b.example.com"}
+
+// genReq draws one request for the provider c; tags get its input classes.
+func genReq(r drv.Rand, c *esCase, tags map[string]bool) esReq {
+	a, b := c.clients[0], c.clients[1]
+	q := esReq{router: opfix.Provider, host: drv.Pick(r, hosts)}
 	if r.Bool() {
-		c.router = opfix.Legacy
+		q.router = opfix.Legacy
 	}
-	c.defaultU = drv.Pick(r, []string{"", "", "https://op.example.com/bye?x=1", "https://op.example.com/done#top", "https://op.example.com/%zz"})
-	a, b := genClient(r, "c0"), genClient(r, "c1")
-	c.clients = []*refstore.Client{a, b}
-	// who is (claimed to be) logging out
-	hk := drv.Pick(r, []string{"none", "none", "valid", "valid", "valid", "expired", "expired", "future", "badsig", "foreign", "garbage", "tampered", "expbadsig"})
+	if r.Chance(1, 3) {
+		q.fwd = drv.Pick(r, hosts)
+	}
+	hk := drv.Pick(r, []string{"none", "none", "valid", "valid", "valid", "valid", "expired", "expired", "future", "badsig", "foreign", "garbage", "tampered", "expbadsig"})
 	azp := drv.Pick(r, []string{"c0", "c0", "c0", "c1", "", "ghost"})
-	c.hint = hintSpec{kind: hk, sub: drv.Pick(r, []string{"alice", "bob", "user 1", "u:1"})}
+	q.hint = hintSpec{kind: hk, sub: drv.Pick(r, []string{"alice", "bob", "user 1", "u:1"})}
+	issKind := "current"
 	if hk != "none" {
-		c.hint.azp = azp
+		q.hint.azp = azp
+		if r.Chance(1, 4) { // a hint of another issuer of the same provider (same key)
+			q.hint.iss = drv.Pick(r, []string{"https://a.example.com", "https://b.example.com", opfix.Issuer})
+			issKind = "other"
+			if q.hint.iss == c.issuer(q) {
+				issKind = "current"
+			}
+		}
 	}
 	cidKind := "absent"
 	switch r.IntN(6) {
 	case 0, 1:
-		c.clientID, cidKind = azp, "same"
+		q.clientID, cidKind = azp, "same"
 	case 2:
-		c.clientID, cidKind = drv.Pick(r, []string{"c0", "c1", "ghost"}), "any"
+		q.clientID, cidKind = drv.Pick(r, []string{"c0", "c1", "ghost"}), "any"
 	}
 	if hk == "none" && r.Chance(2, 3) {
-		c.clientID, cidKind = drv.Pick(r, []string{"c0", "c0", "c1", "ghost"}), "named"
+		q.clientID, cidKind = drv.Pick(r, []string{"c0", "c0", "c1", "ghost"}), "named"
 	}
-	// the requested URI: derived from what the proven client (or the other one) registered
 	owner := a
-	if (hk == "none" && c.clientID == "c1") || (hk != "none" && azp == "c1") {
+	if (hk == "none" && q.clientID == "c1") || (hk != "none" && azp == "c1") {
 		owner = b
 	}
 	uriKind := "none"
 	switch k := r.IntN(10); {
 	case k < 2:
 	case k < 5 && len(owner.PostLogout) > 0:
-		c.uri, uriKind = drv.Pick(r, owner.PostLogout), "exact"
+		q.uri, uriKind = drv.Pick(r, owner.PostLogout), "exact"
 	case k < 6:
 		other := a
 		if owner == a {
 			other = b
 		}
 		if len(other.PostLogout) > 0 {
-			c.uri, uriKind = drv.Pick(r, other.PostLogout), "otherclient"
+			q.uri, uriKind = drv.Pick(r, other.PostLogout), "otherclient"
 		}
 	case k < 8 && owner.UseGlobs:
-		c.uri, uriKind = drv.Pick(r, plShots), "globshot"
+		q.uri, uriKind = drv.Pick(r, plShots), "globshot"
 	default:
 		base := "https://app.example.com/bye"
 		if len(owner.PostLogout) > 0 {
 			base = drv.Pick(r, owner.PostLogout)
 		}
-		c.uri, uriKind = mutate(r, base)
+		q.uri, uriKind = mutate(r, base)
 	}
 	var stKind string
-	c.state, stKind = genState(r)
+	q.state, stKind = genState(r)
 	if r.Chance(1, 12) {
-		c.fault = 1 + r.IntN(2)
+		q.fault = 1 + r.IntN(2)
 	}
-	c.tags = []string{"router=" + c.router.String(), "hint=" + hk, "client_id=" + cidKind, "uri=" + uriKind, "state=" + stKind,
-		fmt.Sprintf("fault=%d", c.fault), fmt.Sprintf("globs=%v", owner.UseGlobs)}
+	for _, t := range []string{"router=" + q.router.String(), "hint=" + hk, "hintiss=" + issKind, "client_id=" + cidKind, "uri=" + uriKind,
+		"state=" + stKind, fmt.Sprintf("fault=%d", q.fault), fmt.Sprintf("globs=%v", owner.UseGlobs), fmt.Sprintf("forwarded=%v", q.fwd != "")} {
+		tags[t] = true
+	}
+	return q
+}
+
+func gen(r drv.Rand, w *emit.Writer) {
+	c := esCase{issuerMode: drv.Pick(r, []int{0, 1, 1, 2, 2})}
+	c.defaultU = drv.Pick(r, []string{"", "", "https://op.example.com/bye?x=1", "https://op.example.com/done#top", "https://op.example.com/%zz"})
+	c.clients = []*refstore.Client{genClient(r, "c0"), genClient(r, "c1")}
+	n := drv.Pick(r, []int{1, 1, 2, 3, 4})
+	tags := map[string]bool{}
+	for i := 0; i < n; i++ {
+		c.reqs = append(c.reqs, genReq(r, &c, tags))
+	}
+	c.tags = []string{fmt.Sprintf("issuer_mode=%d", c.issuerMode), fmt.Sprintf("requests=%d", n)}
+	var ts []string
+	for t := range tags {
+		ts = append(ts, t)
+	}
+	sort.Strings(ts)
+	c.tags = append(c.tags, ts...)
 	run(w, c)
 }
 
@@ -445,16 +523,32 @@ func directed(w *emit.Writer) {
 					if hk != "none" {
 						h.azp, cid = "c0", ""
 					}
-					run(w, esCase{router: router, clients: cl, hint: h, clientID: cid, uri: u, state: st,
+					run(w, esCase{clients: cl, reqs: []esReq{{router: router, host: "op.example.com", hint: h, clientID: cid, uri: u, state: st}},
 						tags: []string{"directed=grid", "router=" + router.String(), "hint=" + hk}})
 				}
 			}
 		}
 		// contradicting client_id, hint of another client asking for this client's URI
-		run(w, esCase{router: router, clients: cl, hint: hintSpec{kind: "valid", sub: "alice", azp: "c1"}, clientID: "c0", uri: "https://app.example.com/bye",
+		run(w, esCase{clients: cl, reqs: []esReq{{router: router, host: "op.example.com", hint: hintSpec{kind: "valid", sub: "alice", azp: "c1"}, clientID: "c0", uri: "https://app.example.com/bye"}},
 			tags: []string{"directed=contradict", "router=" + router.String(), "hint=valid"}})
-		run(w, esCase{router: router, clients: cl, hint: hintSpec{kind: "valid", sub: "alice", azp: "c1"}, uri: "https://app.example.com/bye",
+		run(w, esCase{clients: cl, reqs: []esReq{{router: router, host: "op.example.com", hint: hintSpec{kind: "valid", sub: "alice", azp: "c1"}, uri: "https://app.example.com/bye"}},
 			tags: []string{"directed=otherclient", "router=" + router.String(), "hint=valid"}})
+		// dynamic issuer: one provider, two hosts; hints of host A at host B and back
+		for _, mode := range []int{1, 2} {
+			hA := hintSpec{kind: "valid", sub: "alice", azp: "c0", iss: "https://a.example.com"}
+			hB := hintSpec{kind: "valid", sub: "bob", azp: "c0", iss: "https://b.example.com"}
+			fw := ""
+			if mode == 2 {
+				fw = "b.example.com"
+			}
+			run(w, esCase{issuerMode: mode, clients: cl, reqs: []esReq{
+				{router: router, host: "a.example.com", hint: hintSpec{kind: "none"}, clientID: "c0"},
+				{router: router, host: "b.example.com", hint: hA, uri: "https://app.example.com/bye"},
+				{router: router, host: "b.example.com", hint: hB, uri: "https://app.example.com/bye", state: "s"},
+				{router: router, host: "a.example.com", fwd: fw, hint: hB},
+				{router: router, host: "a.example.com", hint: hA}},
+				tags: []string{"directed=hosts", "router=" + router.String(), fmt.Sprintf("issuer_mode=%d", mode)}})
+		}
 	}
 }
 
@@ -463,16 +557,16 @@ func main() {
 	r := drv.NewRand(cfg.Seed)
 	shard := 0 // quick: spread over 16 coqc processes
 	if !cfg.Quick {
-		shard = 250 // bounds coqc memory (about 2.5 MB per case)
+		shard = 250 // bounds coqc memory
 	}
 	w := emit.NewWriter(cfg.Out, "C18_spec", shard, cfg.Only)
 	directed(w)
-	n := cfg.Count(1200, 20000)
+	n := cfg.Count(700, 10000)
 	for i := 0; i < n; i++ {
 		gen(r, w)
 	}
 	err := w.Close(emit.Meta{Property: "C18", Tier: cfg.Tier, Seed: cfg.Seed,
-		Rule: "one GET /end_session per case on a random router: hint kind (absent, valid, expired, iat in the future, wrong key, foreign issuer, not a JWT, payload swapped, expired+wrong key; really signed ES256) x azp (client, other client, none, unknown) x client_id (absent, same, contradicting, unknown) x post_logout_redirect_uri (absent, registered, registered for the other client, glob instance, mutated: suffix/prefix/userinfo/host case/foreign/unparseable/scheme) x state (absent, plain, special characters, random bytes) x two random registrations (0-3 URIs, optional path.Match globs incl. malformed) x default logout URI x storage fault; plus a directed grid. non-trivial = not rejected because of the hint; distinct = distinct Coq input terms",
+		Rule: "1-4 GET /end_session requests in sequence on ONE provider instance (static issuer, op.IssuerFromHost or op.IssuerFromForwardedOrHost; Host / Forwarded header vary per request), each on a random router: hint kind (absent, valid, expired, iat in the future, wrong key, foreign issuer, not a JWT, payload swapped, expired+wrong key; really signed ES256; 1/4 signed for another issuer of the same provider) x azp (client, other client, none, unknown) x client_id (absent, same, contradicting, unknown) x post_logout_redirect_uri (absent, registered, registered for the other client, glob instance, mutated: suffix/prefix/userinfo/host case/foreign/unparseable/scheme) x state (absent, plain, special characters, random bytes) x two random registrations (0-3 URIs, optional path.Match globs incl. malformed) x default logout URI x storage fault; plus a directed grid and directed two-host sequences. non-trivial = some request not rejected because of its hint; distinct = distinct Coq input terms",
 	})
 	if err != nil {
 		fmt.Fprintln(os.Stderr, err)
